@@ -215,9 +215,9 @@ Section Loop.
     pose proof (srt_perm dims) as Hp.
     assert (Hok' : Forall cursor_ok (srt dims)) by (eapply Forall_perm; [apply Permutation_sym; exact Hp|exact Hok]).
     assert (Hmem : forall k, Forall (In k) dims <-> Forall (In k) (srt dims)).
-    { intros k. split; intros H; eapply Forall_perm; eauto using Permutation_sym. }
+    { intros k. split; intros H; [eapply Forall_perm; [apply Permutation_sym; exact Hp|exact H]|eapply Forall_perm; [exact Hp|exact H]]. }
     assert (Hlen : total_len (srt dims) = total_len dims) by (apply total_len_perm; exact Hp).
-    destruct (srt dims) as [|d0 others] eqn:Es.
+    destruct (srt dims) as [|d0 others] eqn:Es; try rewrite Es in Hp; try rewrite Es in Hok'.
     { exfalso. apply Hne. apply Permutation_nil. exact Hp. }
     inversion Hok' as [|x y [Hd0ne Hd0s] Hoth]; subst x y.
     destruct d0 as [|val r0]; [congruence|].
@@ -245,11 +245,12 @@ Section Loop.
       destruct (Hoth _ Hd) as [_ Hds]. pose proof (Hnoend _ Hd) as Hne'.
       unfold advr, adv1 in *. destruct (advance d val) as [r d'] eqn:Ead. cbn [fst snd] in *.
       destruct (advance_spec _ _ _ _ Hds Ead) as [_ B]. destruct (B Hne') as [B1 [B2 [B3 [B4 [B5 B6]]]]].
-      repeat split; auto.
+      split; [split; assumption|]. split; [exact B3|]. split; [exact B4|]. split; [exact B5|].
+      split.
       - intros Hm. apply B6. destruct r; cbn in Hm; congruence.
       - intros Hin. apply B6 in Hin. subst. reflexivity. }
-    assert (Ham' : am = true <-> Forall (In val) (srt dims)).
-    { rewrite Es. subst am. rewrite forallb_forall. split.
+    assert (Ham' : am = true <-> Forall (In val) ((val :: r0) :: others)).
+    { subst am. rewrite forallb_forall. split.
       - intros H. constructor; [left; reflexivity|]. apply Forall_forall. intros d Hd.
         rewrite Forall_forall in Hadv. apply (Hadv _ Hd). apply H. exact Hd.
       - intros H d Hd. inversion H as [|x y _ Ho]; subst. rewrite Forall_forall in Ho, Hadv.
@@ -263,24 +264,26 @@ Section Loop.
     { constructor; [split; auto; congruence|]. apply Forall_map. eapply Forall_impl; [|exact Hadv]. intros d H. apply H. }
     assert (H1ge : Forall (fun d => forall x, In x d -> bcmp x val <> Lt) dims1).
     { constructor; auto. apply Forall_map. eapply Forall_impl; [|exact Hadv]. intros d H. apply H. }
-    assert (H1mem : forall k, bcmp k val <> Lt -> (Forall (In k) (srt dims) <-> Forall (In k) dims1)).
-    { intros k Hk. rewrite Es. unfold dims1. split; intros H; inversion H as [|x y H0 Ho]; subst; constructor; auto.
-      - apply Forall_map. rewrite Forall_forall in *. intros d Hd. apply (Hadv _ Hd); auto.
-      - apply Forall_map in Ho. rewrite Forall_forall in *. intros d Hd. apply (Hadv _ Hd); auto. }
+    assert (H1mem : forall k, bcmp k val <> Lt -> (Forall (In k) ((val :: r0) :: others) <-> Forall (In k) dims1)).
+    { intros k Hk. unfold dims1. split; intros H; inversion H as [|x y H0 Ho]; subst; constructor; auto.
+      - apply Forall_map. rewrite Forall_forall in *. intros d Hd.
+        destruct (Hadv _ Hd) as [_ [_ [_ [P4 _]]]]. apply (P4 k Hk). apply Ho. exact Hd.
+      - rewrite Forall_map in Ho. rewrite Forall_forall in *. intros d Hd.
+        destruct (Hadv _ Hd) as [_ [_ [_ [P4 _]]]]. apply (P4 k Hk). apply Ho. exact Hd. }
     assert (H1len : (total_len dims1 <= total_len dims)%nat).
     { rewrite <- Hlen. unfold dims1. unfold total_len. cbn [fold_right].
       assert (total_len (map (adv1 val) others) <= total_len others)%nat.
       { apply total_len_map_le. eapply Forall_impl; [|exact Hadv]. intros d H. apply H. }
       unfold total_len in H. lia. }
     (* a common key is >= val *)
-    assert (Hcommon_ge : forall k, Forall (In k) (srt dims) -> bcmp k val <> Lt).
-    { intros k H. rewrite Es in H. inversion H; subst. auto. }
+    assert (Hcommon_ge : forall k, Forall (In k) ((val :: r0) :: others) -> bcmp k val <> Lt).
+    { intros k H. inversion H; subst. auto. }
     assert (H1ne : Forall (fun d => d <> []) dims1) by (eapply Forall_impl; [|exact H1ok]; intros d H; apply H).
     assert (Hpop : Forall (fun d => ssorted (pop1 val d) /\ (length (pop1 val d) <= length d)%nat /\
         (forall k, bcmp k val = Gt -> (In k d <-> In k (pop1 val d))) /\
         (pop1 val d = [] -> forall x, In x d -> bcmp x val <> Gt) /\
         (forall x, In x (pop1 val d) -> bcmp x val <> Lt)) dims1).
-    { apply Forall_forall. intros d Hd. rewrite Forall_forall in H1ok, H1ge. apply pop1_spec; auto. }
+    { apply Forall_forall. intros d Hd. rewrite Forall_forall in H1ok, H1ge. apply pop1_spec; [apply H1ok; exact Hd|apply H1ge; exact Hd]. }
     fold dims1.
     destruct (pop_val true dims1 val) as [dims2|] eqn:Epop.
     2:{ (* some cursor on val was the last key of its dimension *)
@@ -313,12 +316,165 @@ Section Loop.
       + intros [Hk|Hk].
         * unfold hd_r in Hk. destruct am; [|destruct Hk]. destruct Hk as [->|[]]. apply Ham'. reflexivity.
         * pose proof (Hr2gt _ Hk) as Hgt. apply bcmp_lt_gt in Hgt.
-          apply H1mem; [congruence|]. apply M2 in Hk. apply Forall_map in Hk.
-          rewrite Forall_forall in *. intros d Hd. apply (Hpop _ Hd); auto.
+          apply H1mem; [congruence|]. apply M2 in Hk. rewrite Forall_map in Hk.
+          rewrite Forall_forall in *. intros d Hd.
+          destruct (Hpop _ Hd) as [_ [_ [P3 _]]]. apply (P3 k Hgt). apply Hk. exact Hd.
       + intros Hall. pose proof (Hcommon_ge _ Hall) as Hk.
         destruct (bcmp k val) eqn:Ek; [|congruence|].
         * apply bcmp_eq in Ek. subst k. apply Ham' in Hall. left. unfold hd_r. rewrite Hall. left. reflexivity.
         * right. apply M2. apply Forall_map. apply H1mem in Hall; [|congruence].
-          rewrite Forall_forall in *. intros d Hd. apply (Hpop _ Hd); auto.
+          rewrite Forall_forall in *. intros d Hd.
+          destruct (Hpop _ Hd) as [_ [_ [P3 _]]]. apply (P3 k Ek). apply Hall. exact Hd.
   Qed.
 End Loop.
+
+Lemma existsb_is_nil : forall (l : list (list dkey)), existsb is_nil l = true <-> In [] l.
+Proof.
+  intros l. rewrite existsb_exists. split.
+  - intros [x [Hx E]]. destruct x; [exact Hx|discriminate].
+  - intros H. exists []. auto.
+Qed.
+
+(* intersection_spec: any number of sorted duplicate-free inputs, any permutation returned by the sort *)
+Theorem intersection_gen_spec : forall srt, (forall l, Permutation (srt l) l) ->
+  forall input, Forall ssorted input ->
+  exists r, intersection_gen srt true input = Some r /\ ssorted r /\
+            (input <> [] -> forall k, In k r <-> Forall (In k) input).
+Proof.
+  intros srt Hsrt input Hs. unfold intersection_gen.
+  destruct input as [|d1 [|d2 rest]].
+  - exists []. split; [reflexivity|split; [constructor|congruence]].
+  - exists d1. inversion Hs; subst. split; [reflexivity|split; [assumption|]].
+    intros _ k. split; [intros H; constructor; auto|intros H; inversion H; auto].
+  - cbv beta iota. remember (d1 :: d2 :: rest) as input eqn:Ei.
+    match goal with |- context [existsb ?f input] => destruct (existsb f input) eqn:En end.
+    + exists []. split; [reflexivity|split; [constructor|]]. intros _ k. split; [intros []|].
+      intros H. apply existsb_is_nil in En. rewrite Forall_forall in H. apply (H _ En).
+    + assert (Hok : Forall cursor_ok input).
+      { apply Forall_forall. intros d Hd. split.
+        - intros ->. apply existsb_is_nil in Hd. congruence.
+        - rewrite Forall_forall in Hs. auto. }
+      destruct (inter_loop_spec srt Hsrt (S (total_len input + length input)) input [] Hok
+                  ltac:(subst input; discriminate) ltac:(lia)) as [r [E [S M]]].
+      exists r. cbn [rev app] in E. split; [exact E|split; [exact S|intros _; exact M]].
+Qed.
+
+Lemma ins_desc_perm : forall x l, Permutation (ins_desc x l) (x :: l).
+Proof.
+  induction l as [|y l IH]; cbn; auto.
+  destruct (head_gtb y x); auto.
+  eapply Permutation_trans; [apply perm_skip; exact IH|apply perm_swap].
+Qed.
+
+Lemma sort_desc_perm : forall l, Permutation (sort_desc l) l.
+Proof.
+  unfold sort_desc. intros l.
+  assert (G : forall l acc, Permutation (fold_left (fun acc x => ins_desc x acc) l acc) (l ++ acc)).
+  { induction l0 as [|x l0 IH]; intros acc; cbn; auto.
+    eapply Permutation_trans; [apply IH|].
+    eapply Permutation_trans; [apply Permutation_app_head; apply ins_desc_perm|].
+    apply Permutation_sym. apply Permutation_middle. }
+  specialize (G l []). rewrite app_nil_r in G. exact G.
+Qed.
+
+Theorem intersection_spec : forall input, Forall ssorted input ->
+  exists r, intersection input = Some r /\ ssorted r /\
+            (input <> [] -> forall k, In k r <-> Forall (In k) input).
+Proof. intros. apply intersection_gen_spec; auto. apply sort_desc_perm. Qed.
+
+(* the result written as a filter of the first input *)
+Corollary intersection_filter : forall d ds, Forall ssorted (d :: ds) ->
+  intersection (d :: ds) = Some (filter (fun k => forallb (d_mem k) ds) d).
+Proof.
+  intros d ds Hs. destruct (intersection_spec _ Hs) as [r [E [S M]]]. rewrite E. f_equal.
+  inversion Hs as [|x y Hd Hds]; subst.
+  assert (Hmem : forall k l, d_mem k l = true <-> In k l).
+  { intros k l. unfold d_mem. rewrite existsb_exists. split.
+    - intros [x [Hx Ex]]. apply beqb_true in Ex. subst. exact Hx.
+    - intros H. exists k. split; auto. apply beqb_refl. }
+  apply ssorted_ext; auto.
+  - (* a filter of a sorted list is sorted *)
+    clear -Hd. induction d as [|c d IH]; cbn; [constructor|].
+    pose proof (ssorted_tail _ _ Hd) as Ht. destruct (forallb (d_mem c) ds); auto.
+    apply ssorted_cons_intro; auto. intros x Hx. apply filter_In in Hx. destruct Hx as [Hx _].
+    eapply ssorted_head_lt; eauto.
+  - intros k. rewrite (M ltac:(discriminate) k). rewrite filter_In, forallb_forall. split.
+    + intros H. inversion H as [|x y Hk Hks]; subst. split; auto. intros l Hl. apply Hmem.
+      rewrite Forall_forall in Hks. auto.
+    + intros [Hk H]. constructor; auto. apply Forall_forall. intros l Hl. apply Hmem. auto.
+Qed.
+
+(* D2: with the rule before the fix (every cursor moves on), key 3 of [1,3] and [2,3] is lost *)
+Example intersection_unfixed_loses_key :
+  intersection_unfixed [[[1]; [3]]; [[2]; [3]]] = Some [] /\
+  intersection [[[1]; [3]]; [[2]; [3]]] = Some [[3]].
+Proof. vm_compute. auto. Qed.
+
+Theorem intersection_unfixed_refuted : exists input, Forall ssorted input /\ input <> [] /\
+  exists r k, intersection_unfixed input = Some r /\ Forall (In k) input /\ ~ In k r.
+Proof.
+  exists [[[1]; [3]]; [[2]; [3]]]. split; [repeat constructor|split; [discriminate|]].
+  exists [], [3]. split; [vm_compute; reflexivity|split; [|intros []]].
+  constructor; [cbn; auto|constructor; [cbn; auto|constructor]].
+Qed.
+
+(* ================= Union ================= *)
+
+Definition add_all (d : dim) (res : list dkey) : list dkey :=
+  fold_left (fun res k => if d_mem k res then res else res ++ [k]) d res.
+
+Lemma d_mem_In : forall k l, d_mem k l = true <-> In k l.
+Proof.
+  intros k l. unfold d_mem. rewrite existsb_exists. split.
+  - intros [x [Hx Ex]]. apply beqb_true in Ex. subst. exact Hx.
+  - intros H. exists k. split; auto. apply beqb_refl.
+Qed.
+
+Lemma NoDup_snoc : forall (k : dkey) res, NoDup res -> ~ In k res -> NoDup (res ++ [k]).
+Proof.
+  intros k res Hnd Hk. eapply Permutation_NoDup; [apply Permutation_cons_append|]. constructor; auto.
+Qed.
+
+Lemma add_all_spec : forall d res,
+  (forall x, In x (add_all d res) <-> In x res \/ In x d) /\ (NoDup res -> NoDup (add_all d res)).
+Proof.
+  unfold add_all. induction d as [|k d IH]; intros res; cbn.
+  - split; [intuition|auto].
+  - destruct (d_mem k res) eqn:E.
+    + apply d_mem_In in E. destruct (IH res) as [A B]. split; auto.
+      intros x. rewrite A. intuition. subst. auto.
+    + destruct (IH (res ++ [k])) as [A B]. split.
+      * intros x. rewrite A, in_app_iff. cbn. intuition.
+      * intros Hnd. apply B. apply NoDup_snoc; auto.
+        intros Hin. apply d_mem_In in Hin. congruence.
+Qed.
+
+Lemma union_fold_spec : forall input res,
+  let r := fold_left (fun res d => add_all d res) input res in
+  (forall x, In x r <-> In x res \/ Exists (In x) input) /\ (NoDup res -> NoDup r).
+Proof.
+  induction input as [|d input IH]; intros res; cbn.
+  - split; auto. intros x. split; [auto|]. intros [H|H]; auto. inversion H.
+  - destruct (IH (add_all d res)) as [A B]. destruct (add_all_spec d res) as [C D]. split.
+    + intros x. rewrite A, C. split.
+      * intros [[H|H]|H]; auto.
+      * intros [H|H]; auto. inversion H; subst; auto.
+    + intros Hnd. apply B. apply D. exact Hnd.
+Qed.
+
+(* union_spec: every key of some input, each once *)
+Theorem union_spec : forall input,
+  (forall k, In k (union input) <-> Exists (In k) input) /\
+  (Forall (@NoDup dkey) input -> NoDup (union input)).
+Proof.
+  intros input. unfold union. destruct input as [|d1 [|d2 rest]].
+  - split; [|constructor]. intros k. split; [intros []|intros H; inversion H].
+  - split.
+    + intros k. split; [intros H; left; exact H|]. intros H. inversion H as [? ? H1|? ? H1]; subst; [exact H1|inversion H1].
+    + intros H. inversion H; auto.
+  - change (fold_left (fun res d => fold_left (fun res k => if d_mem k res then res else res ++ [k]) d res) (d1 :: d2 :: rest) [])
+      with (fold_left (fun res d => add_all d res) (d1 :: d2 :: rest) []).
+    destruct (union_fold_spec (d1 :: d2 :: rest) []) as [A B]. split.
+    + intros k. rewrite A. split; [intros [[]|H]; exact H|auto].
+    + intros _. apply B. constructor.
+Qed.
